@@ -115,9 +115,30 @@ func (p *PKI) ClientVerify(pol ClientPolicy, authorized ...keys.DHPublicKey) *tr
 	return v
 }
 
-// Addr makes the i-th address of the pool.
+// Addr makes the i-th address of the pool:
+//
+//	0..99     10.0.0.i : 4000+i
+//	100..199  the IP of i-100, another port (5000+i)        — differs from i-100 in the port only
+//	200..299  10.1.0.(i-200) : 4000+(i-200)                 — differs from i-200 in the IP only
+//	300..399  2001:db8::(i-300) : 4000+(i-300)              — IPv6
+//	400..499  2001:db8:1::(i-400) : 4000+(i-400)            — IPv6, differs from i-100 in the IP only
 func Addr(i int) *net.UDPAddr {
-	return &net.UDPAddr{IP: net.IPv4(10, 0, byte(i>>8), byte(i)), Port: 4000 + i}
+	switch {
+	case i < 100:
+		return &net.UDPAddr{IP: net.IPv4(10, 0, 0, byte(i)), Port: 4000 + i}
+	case i < 200:
+		return &net.UDPAddr{IP: net.IPv4(10, 0, 0, byte(i-100)), Port: 5000 + i}
+	case i < 300:
+		return &net.UDPAddr{IP: net.IPv4(10, 1, 0, byte(i-200)), Port: 4000 + (i - 200)}
+	case i < 400:
+		ip := net.ParseIP("2001:db8::")
+		ip[15] = byte(i - 300)
+		return &net.UDPAddr{IP: ip, Port: 4000 + (i - 300)}
+	default:
+		ip := net.ParseIP("2001:db8:1::")
+		ip[15] = byte(i - 400)
+		return &net.UDPAddr{IP: ip, Port: 4000 + (i - 400)}
+	}
 }
 
 var ServerAddr = &net.UDPAddr{IP: net.IPv4(10, 9, 9, 9), Port: 77}
